@@ -15,4 +15,5 @@ for d in $(ls seeded | grep -E "$pat"); do
   elif echo "$out" | grep -q "VIOLATION"; then v=NOFAIL
   else v=MISSED; fi
   echo "$v $c $d"
+  [ -n "$CORPUS_DETAIL" ] && echo "$out" | grep "violation:" | head -1 | cut -c1-260
 done
